@@ -5,7 +5,7 @@
   `energy.gradient_norm`, `energy.gradient.norm(inf)`, `energy.value`.  Norms enter squared, so that the model stays
   inside an ordered field (exact rationals in the driver):  for `a ≥ 0`
       `sqrt a ≤ t`  ⇔  `0 ≤ t ∧ a ≤ t*t`         `sqrt a < t`  ⇔  `0 < t ∧ a < t*t`
-  (proved over ℝ in Lemmas/Controllers.lean: `sqrt_le_iff_sq`, `sqrt_lt_iff_sq`).
+  (proved over ℝ in Lemmas/ControllersSqrt.lean: `sqrt_le_iff_sq`, `sqrt_lt_iff_sq`).
 
   All five Python classes end with the same three statements (counter update, iteration limit, convergence level);
   they are transcribed once (`bump`, `verdict`) and each class contributes its criterion `crit` (the `inclvl` decision
@@ -51,7 +51,8 @@ deriving Repr
 
 /-- a controller class instance: constructor arguments common to all five + its criterion.
     `crit aux itcount obs` (with `itcount` already incremented) returns `none` when the Python code raises
-    (`ZeroDivisionError` in `DeltaEnergyController`), else the `inclvl` decision and the updated memory. -/
+    (none of the five classes does, after the repair of `DeltaEnergyController`), else the `inclvl` decision and the
+    updated memory. -/
 structure Ctrl (K τ : Type) where
   level : Int
   limit : Option Int
@@ -131,16 +132,22 @@ def gradInf (tol : Option K) (level : Int) (limit : Option Int) : Ctrl K Unit wh
       | none => false
     some (inc, ())
 
-/-- DeltaEnergyController(tol_rel_deltaE, ...): memory `_Eold` (0.0 at start).
-    `rel = abs(Eold-Eval)/max(abs(Eold),abs(Eval))` is evaluated *before* the `itcount > 0` test and raises
-    `ZeroDivisionError` on Python floats when both energies are 0 (`energy.value` is a Python float). -/
+/-- DeltaEnergyController(tol_rel_deltaE, ...): memory `_Eold` (0.0 at start).  Models the code **as repaired by
+    fixes/C14_deltae_zero_energy.diff**:
+    ```
+    scale = max(abs(self._Eold), abs(Eval))
+    rel = abs(self._Eold-Eval)/scale if scale != 0 else float("nan")      # nan < tol is False
+    if self._itcount > 0 and rel < self._tol_rel_deltaE: inclvl = True
+    ```
+    (the unrepaired code divides unconditionally and raises `ZeroDivisionError` on two vanishing energies, because
+    `energy.value` is a Python float — e.g. every `InversionEnabler` run, which starts at `x = 0`). -/
 def deltaE (tol : K) (level : Int) (limit : Option Int) : Ctrl K K where
   level := level
   limit := limit
   init := fun _ => 0
   crit := fun eold it o =>
     let den := maxK (absK eold) (absK o.value)
-    if den = 0 then none else
+    if den = 0 then some (false, o.value) else
     let rel := absK (eold - o.value) / den
     some (decide (0 < it) && decide (rel < tol), o.value)
 
